@@ -28,7 +28,7 @@ PROPS["C15"] = {
         Job("soyhtml", "H_textlex", "5,0", tier="thorough", workers=16, maxfan=16),
         Job("soyhtml", "H_textlex", "3,3..9", tier="thorough", workers=16, maxfan=16, note="after commands holding comments"),
     ],
-    "bounds_quick": "rawtext(s,trimBefore,trimAfter) vs the line-joining rule: every ASCII string (bytes 1..127) of length <= 4 with both flags symbolic; order-preservation of non-whitespace bytes over all 256 byte values for length <= 3; the whole chain lexer -> text/comment tokens -> rawtext -> render for every template body of <= 3 characters over {a < > space LF CR / * :} between prints, at template start and at template end, and (<= 2 characters; thorough 3) after 7 commands that hold comments of their own (between call params, before a switch case, inside if/foreach/let/param blocks) (comment-free: exact output; with comments: exactly the non-whitespace characters outside comments; unclosed block comment: error); literal blocks of <= 3 characters over {a space { } LF / < *} and all special-character commands",
+    "bounds_quick": "rawtext(s,trimBefore,trimAfter) vs the line-joining rule: every ASCII string (bytes 1..127) of length <= 4 with both flags symbolic; order-preservation of non-whitespace bytes over all 256 byte values for length <= 3; the whole chain lexer -> text/comment tokens -> rawtext -> render for every template body of <= 3 characters over {a < > space LF CR / * :} between prints, at template start and at template end, and (<= 2 characters; thorough 3) after 7 commands that hold comments of their own (between call params, before a switch case, inside if/foreach/let/param blocks) (comment-free: exact output; with comments: exactly the non-whitespace characters outside comments; unclosed block comment: error); literal blocks of <= 3 characters over {a space { } LF CR TAB / < *} and all special-character commands",
     "bounds_thorough": "as quick, ASCII length <= 5; template bodies of 4 characters in all contexts and 5 between prints",
     "outside": "longer text runs",
     "assumptions": ["refRawtext (harness) is the statement's rule written over maximal whitespace runs"],
@@ -39,16 +39,16 @@ PROPS["C15"] = {
 # ---------------------------------------------------------------- C03
 PROPS["C03"] = {
     "jobs": [
-        Job("soyhtml", "H_escape", "0..3", workers=8),
+        Job("soyhtml", "H_escape", "0..5", workers=16),
         Job("soyhtml", "H_decision", "0..3,0..3,0..8,0", workers=16),
         Job("soyhtml", "H_decision", "0..1,0..1,0..8,1..4", workers=16),
         Job("soyhtml", "H_decision", "0..3,0..3,0..3,4..8", workers=16, note="cross-namespace and cross-file calls"),
         Job("soyhtml", "H_nonString", "0..4", workers=4),
-        Job("soyhtml", "H_escape", "4..5", tier="thorough", workers=16),
+        Job("soyhtml", "H_escape", "6", tier="thorough", workers=16),
         Job("soyhtml", "H_decision", "0..3,0..3,0..8,1..8", tier="thorough", workers=16, note="all modes in all contexts"),
     ],
-    "bounds_quick": "htmlEscapeString on all strings of <= 3 bytes (256 values each); evalPrint escape decision for $x = any 2 non-NUL bytes under 4x4 namespace/template autoescape attributes x 9 directive chains (direct print) and 2x2 modes x 9 chains in let-content, param-content, msg-placeholder and cross-namespace call contexts; cross-namespace calls from a caller whose template / namespace is autoescape=false / true into a callee with each of the 4x4 namespace/template attributes x 4 chains (the callee's own mode decides), also within one namespace spread over two files with different declarations, in both orders of addition; non-string values",
-    "bounds_thorough": "escaper <= 5 bytes; all 16 mode pairs in every context",
+    "bounds_quick": "the HTML escaper (through an autoescaped print rendered by the public API) on all strings of <= 5 bytes (256 values each); evalPrint escape decision for $x = any 2 non-NUL bytes under 4x4 namespace/template autoescape attributes x 9 directive chains (direct print) and 2x2 modes x 9 chains in let-content, param-content, msg-placeholder and cross-namespace call contexts; cross-namespace calls from a caller whose template / namespace is autoescape=false / true into a callee with each of the 4x4 namespace/template attributes x 4 chains (the callee's own mode decides), also within one namespace spread over two files with different declarations, in both orders of addition; non-string values",
+    "bounds_thorough": "escaper <= 6 bytes; all 16 mode pairs in every context",
     "outside": "strings longer than the bound; user-registered directives; changeNewlineToBr is checked under C16 (its regexp replacement through a validated Go model of the pattern); contextual escaping beyond what soy implements",
     "assumptions": ["decodeEntities (harness) is the reference decoder of the five character references"],
     "level_text": "Bounded symbolic model checking of the real escaper and of the real parse+render pipeline around evalPrint: the printed value is symbolic, every path of the escaping code is discharged by the solver, so value-dependent holes (a special character that slips through only for certain values) are found or excluded within the bound.",
@@ -58,13 +58,13 @@ PROPS["C03"] = {
 # ---------------------------------------------------------------- C12
 PROPS["C12"] = {
     "jobs": [
-        Job("soyhtml", "H_fault", "0..8,0..3,0", workers=16),
-        Job("soyhtml", "H_fault", "0..8,0..1,1", workers=16),
-        Job("soyhtml", "H_fault", "0..8,0..3,2..3", workers=16, maxfan=300),
+        Job("soyhtml", "H_fault", "0..11,0..3,0", workers=16),
+        Job("soyhtml", "H_fault", "0..11,0..1,1", workers=16),
+        Job("soyhtml", "H_fault", "0..11,0..3,2..3", workers=16, maxfan=300),
         Job("soyhtml", "H_fault", "7..8,4,0..3", workers=8, maxfan=300, note="untranslated plural, n=1"),
-        Job("soyhtml", "H_fault", "0..8,2..3,1", tier="thorough", workers=16),
+        Job("soyhtml", "H_fault", "0..11,2..3,1", tier="thorough", workers=16),
     ],
-    "bounds_quick": "9 templates covering every write site (incl. loops over 9 and 10 items) of the tree walker (raw text, escaped/unescaped print, css, literal, special chars, msg text/html tag/placeholder, plural messages (as the last output and followed by output; source cases and the cases of a translating bundle), let and param content blocks, log, call, data=all call, foreach, switch; the msg template also with a translating message bundle) x 4 data strings; four writer models: sticky failure from a symbolically chosen Write call, the same with a symbolic accepted prefix of the failing call (2 data strings), a writer with a symbolic byte capacity that still accepts empty writes once full, and a transient failure of exactly one symbolically chosen call",
+    "bounds_quick": "12 templates (incl. static-text-only templates, directly and through a call, and a template without output) covering every write site (incl. loops over 9 and 10 items) of the tree walker (raw text, escaped/unescaped print, css, literal, special chars, msg text/html tag/placeholder, plural messages (as the last output and followed by output; source cases and the cases of a translating bundle), let and param content blocks, log, call, data=all call, foreach, switch; the msg template also with a translating message bundle) x 4 data strings; four writer models: sticky failure from a symbolically chosen Write call, the same with a symbolic accepted prefix of the failing call (2 data strings), a writer with a symbolic byte capacity that still accepts empty writes once full, and a transient failure of exactly one symbolically chosen call",
     "bounds_thorough": "short writes for all 4 data strings",
     "outside": "templates other than the listed ones; writers that fail and later recover",
     "assumptions": ["writer models as listed in bounds; a write that fails accepts a prefix of its argument"],
@@ -114,13 +114,13 @@ PROPS["C10"] = {
         Job("soymsg", "H_fp", "0..25", workers=8, qtimeout=3000, allow_inconclusive=True),
         Job("soymsg", "H_id", "0..4,0..2", workers=8, qtimeout=3000, allow_inconclusive=True),
         Job("soymsg", "H_idMeaning", "0..7,0..2", workers=8, qtimeout=3000, allow_inconclusive=True),
-        Job("soymsg", "H_names", "0..11,-1..3", workers=16),
+        Job("soymsg", "H_names", "0..13,-1..3", workers=16),
         Job("soymsg", "H_baseName", "1..4", workers=16, maxfan=16),
         Job("soyhtml", "H_msgPositions", "0..13", workers=8),
         Job("soymsg", "H_fp", "26..40", tier="thorough", workers=8, qtimeout=3000, allow_inconclusive=True, note="3 blocks"),
         Job("soymsg", "H_id", "5..13,0..3", tier="thorough", workers=8, qtimeout=3000, allow_inconclusive=True, note="longer text"),
     ],
-    "bounds_quick": "fingerprint vs the official algorithm for every byte string of each length 0..25 (0, 1 and 2 twelve-byte blocks, every tail length); calcID with symbolic text (<= 4 bytes), description (2 bytes, two independent copies) and meaning (<= 2 bytes); the id of 8 structured messages (placeholders, html tags, plural) with a symbolic meaning (<= 2 bytes) and description against the official id of their placeholder string; base-name derivation (toUpperUnderscore and genBasePlaceholderName) for every identifier of <= 4 characters over {a,b,A,B,1,2,_} against a regexp-free reference; the id/placeholder pass (parsepasses.ProcessMessages) on a message placed in 14 containers (if/elseif/else, switch cases, foreach/ifempty, for, let content, call param content - also nested -, log) against the same message at top level; placeholder naming for a dictionary of 12 messages (incl. one expression under different directives and link tags differing in an attribute) under an arbitrary iteration order of each of the 4 map loops of setPlaceholderNames, one loop at a time",
+    "bounds_quick": "fingerprint vs the official algorithm for every byte string of each length 0..25 (0, 1 and 2 twelve-byte blocks, every tail length); calcID with symbolic text (<= 4 bytes), description (2 bytes, two independent copies) and meaning (<= 2 bytes); the id of 8 structured messages (placeholders, html tags, plural) with a symbolic meaning (<= 2 bytes) and description against the official id of their placeholder string; base-name derivation (toUpperUnderscore and genBasePlaceholderName) for every identifier of <= 4 characters over {a,b,A,B,1,2,_} against a regexp-free reference; the id/placeholder pass (parsepasses.ProcessMessages) on a message placed in 14 containers (if/elseif/else, switch cases, foreach/ifempty, for, let content, call param content - also nested -, log) against the same message at top level; placeholder naming for a dictionary of 14 messages (incl. one expression under different directives / directive arguments / access styles and link tags differing in an attribute) under an arbitrary iteration order of each of the 4 map loops of setPlaceholderNames, one loop at a time",
     "bounds_thorough": "fingerprint lengths up to 40; text up to 13 bytes, meaning up to 3",
     "outside": "strings longer than the bound; collision-freeness (a 63-bit id cannot be injective); the branch hi==0 && lo in {0,1} is a hash pre-image question: explored under a 3 s query timeout and counted as inconclusive when the solver gives up; several map loops permuted at once (only one loop's order influences the result, shown per loop); across-process stability follows from calcID reading nothing but the node",
     "assumptions": ["refFingerprint/refID/refNames (harness) are transliterations of the official SoyMsgIdComputer and MsgNode.genSubstUnitInfo; refID is validated on every run against the official ids pinned in soy's tests"],
@@ -156,6 +156,7 @@ PROPS["C01"] = {
         Job("soyhtml", "H_print", "0..8", workers=8),
         Job("soyhtml", "H_dataref", "0..5,0..8", workers=8),
         Job("soyhtml", "H_datarefChain", "0..5,0..5,-1..5,0..12", workers=16),
+        Job("soyhtml", "H_collFuncs", "", workers=8),
         Job("soyhtml", "H_func", "0..13,0..3,0..8,0..8,0..2", workers=16, maxsteps=400000, hang_timeout=4.0, allow_unsupported=(r"math\.Pow\(symbolic\)",)),
         Job("parse", "H_minus", "false", workers=4),
         Job("parse", "H_minus", "true", workers=4),
@@ -245,8 +246,8 @@ PROPS["C13"] = {
         Job("soyjs", "H_jsAfterFailure", "0..2,0..2,true", workers=4, note="generation after a failed generation"),
         Job("soyjs", "H_jsOrder", "0..2,-1..3,false", workers=8, timeout=300),
         Job("soyjs", "H_jsOrder", "0..2,-1..3,true", workers=8, timeout=300),
-        Job(".", "H_bundle", "0..12,0", workers=8, timeout=400, per_map_site=r"^(ast|data|parse|parsepasses|soyhtml|soyjs|soymsg|template|bundle|globals)"),
-        Job(".", "H_bundle", "0..12,1..5", workers=8, timeout=400, note="file insertion orders"),
+        Job(".", "H_bundle", "0..13,0", workers=8, timeout=400, per_map_site=r"^(ast|data|parse|parsepasses|soyhtml|soyjs|soymsg|template|bundle|globals)"),
+        Job(".", "H_bundle", "0..13,1..5", workers=8, timeout=400, note="file insertion orders"),
     ],
     "bounds": "real soy.NewBundle().AddTemplateString(..).AddGlobalsMap(..).Compile() + Tofu rendering + soyjs.Write (ES5 and ES6) for 8 bundles, each compiled twice from the same Bundle object and a third time through CompileToTofu (valid with messages/globals/map literals/cross-file calls; rejected by the data-ref checker, the parser, the globals pass; two independent errors; duplicate template name; header params without soydoc); every map-range site reached in the soy packages is given an arbitrary iteration order, one site at a time (all permutations up to 5 keys; for larger maps an arbitrary key first and an arbitrary key last); all 6 insertion orders of up to 3 files",
     "outside": "two or more loops permuted simultaneously (order dependence that needs a particular combination); bundles outside the dictionary; file-system loading and the watcher",
@@ -259,13 +260,14 @@ PROPS["C13"] = {
 # ---------------------------------------------------------------- C17
 PROPS["C17"] = {
     "jobs": [
-        Job("parse", "H_roundLeaf", "0..19,0..6", workers=8),
+        Job("parse", "H_roundLeaf", "0..19,0..7", workers=8),
+        Job("parse", "H_roundWrapOp", "0..16,3..7", workers=8),
         Job("parse", "H_roundStr", "0..2,1..4", workers=16),
         Job("parse", "H_roundOps", "0..16,0..16,0..2", workers=16),
         Job("parse", "H_roundPrint", "0..19,0..3", workers=8),
     ],
-    "bounds": "expression trees: every leaf kind (ints incl. negative and 2^53, floats incl. integral and exponent forms and 16 boundary magnitudes (2^63, 2^64, 1e15..1e22, 1e-7, max, min subnormal), bool, null, strings of 1 symbolic byte quoted by the real quoteString, data references with every access kind, globals, function calls, list and map literals, empty literals) alone and under negate/not/index/call/list/map wrappers; every operator (14 binary, 2 unary, ternary) over every operator in every operand position (depth 2); print commands with 0..2 directives with arguments",
-    "outside": "nesting depth > 2 of operators (parenthesisation is decided pairwise, so depth 2 covers each parent/child combination once); strings longer than 1 byte",
+    "bounds": "expression trees: every leaf kind (ints incl. negative and 2^53, floats incl. integral and exponent forms and 16 boundary magnitudes (2^63, 2^64, 1e15..1e22, 1e-7, max, min subnormal), bool, null, strings of 1 symbolic byte quoted by the real quoteString, data references with every access kind, globals, function calls, list and map literals, empty literals) alone and under negate/not/index/call/list/map/access-chain wrappers; every operator inside each bracketing wrapper (with a symbolic string operand); string literals and map keys of any valid UTF-8 of <= 4 bytes; every operator (14 binary, 2 unary, ternary) over every operator in every operand position (depth 2); print commands with 0..2 directives with arguments",
+    "outside": "nesting depth > 2 of operators (parenthesisation is decided pairwise, so depth 2 covers each parent/child combination once); strings longer than 4 bytes",
     "assumptions": ["sameTree (harness): structural equality ignoring positions and the Quoted/Name presentation fields"],
     "level_text": "Bounded symbolic model checking over expression trees enumerated up to depth 2 with symbolic string bytes: print with the real String methods, parse with the real parser, compare structurally.",
     "level_note": "Bounds in evidence. Trusted: go/ssa, gosym, z3, sameTree.",
@@ -279,12 +281,14 @@ PROPS["C19"] = {
         Job("soyhtml", "H_rendererr", "0..2,4,false", workers=8),
         Job("soyhtml", "H_rendererr", "0..2,4,true", workers=8, note="both files in one namespace"),
         Job("soyhtml", "H_writeerrpos", "3", workers=8),
+        Job("soyhtml", "H_rendererrMsg", "4,false", workers=4),
+        Job("soyhtml", "H_rendererrMsg", "4,true", workers=4),
         Job("parse", "H_parseCtx", "0..71,0..1,false", workers=16, maxsteps=300000),
         Job("parse", "H_exprCtx", "0..21,0..1,false", workers=16, maxsteps=300000),
         Job("parse", "H_parseCtx", "0..71,2,false", tier="thorough", workers=16, maxsteps=300000, note="k=2"),
         Job("parse", "H_errpos", "0..11,0..2,7", tier="thorough", workers=16, note="7 lines"),
     ],
-    "bounds": "parse errors: 12 fault kinds injected on a symbolically chosen line of a 4-line (thorough 7) template body with LF, CRLF and blank-line separators: file name, exact line (point faults) or line within [construct start, end of input] (constructs left open), same numbers in the message text; on the C05 context harnesses (arbitrary symbolic bytes) every parse error carries the given file name and a line within 1..1+count(LF). Render errors: failing command on a symbolically chosen line at call depth 0..2 across two files (in different namespaces and in one shared namespace); render errors caused by a write failure at a symbolically chosen write of a 3-line template",
+    "bounds": "parse errors: 12 fault kinds injected on a symbolically chosen line of a 4-line (thorough 7) template body with LF, CRLF and blank-line separators: file name, exact line (point faults) or line within [construct start, end of input] (constructs left open), same numbers in the message text; on the C05 context harnesses (arbitrary symbolic bytes) every parse error carries the given file name and a line within 1..1+count(LF). Render errors: failing command on a symbolically chosen line at call depth 0..2 across two files (in different namespaces and in one shared namespace); render errors raised inside a {msg} (from the source and through a translating catalogue) whose message also occurs, and renders, in a called template before and after; render errors caused by a write failure at a symbolically chosen write of a 3-line template",
     "outside": "column numbers are only required to agree between ErrFilePos and the message text; files longer than the bound",
     "assumptions": [],
     "level_text": "Bounded symbolic model checking: the fault position is a solver-chosen value and, on the context harnesses, the whole input suffix is symbolic; position bookkeeping of every error path reached is compared with the injected position.",
@@ -301,6 +305,9 @@ PROPS["C16"] = {
         Job("soyhtml", "H_wordBreaks", "0..3,1..3", workers=16),
         Job("soyhtml", "H_newlineToBr", "0..4", workers=8, maxfan=300),
         Job("soyhtml", "H_chain", "0..4", workers=8),
+        Job("soyhtml", "H_printPath", "0..6,0..2", workers=8),
+        Job("soyjs", "H_jsChain", "0..7,false", workers=4, note="order of the JavaScript counterparts"),
+        Job("soyjs", "H_jsChain", "0..7,true", workers=4, note="order of the JavaScript counterparts"),
         Job("soyhtml", "H_json", "0..3,0..2", workers=16),
         Job("soyhtml", "H_json", "0,3", tier="thorough", workers=16),
         Job("soyhtml", "H_escapeUri", "3", tier="thorough", workers=16),
@@ -308,7 +315,7 @@ PROPS["C16"] = {
         Job("soyhtml", "H_truncate", "4..5,0..8,0..2", tier="thorough", workers=16),
         Job("soyhtml", "H_newlineToBr", "5", tier="thorough", workers=16, maxfan=300),
     ],
-    "bounds_quick": "escapeUri: every string of <= 2 bytes (all 256 values); escapeJsString: <= 2 ASCII bytes (incl. controls) optionally with one of U+00E9/U+2028/U+2029/U+FEFF; truncate: valid UTF-8 strings of <= 3 bytes, limit 0..5, ellipsis default/true/false, and 5-byte strings with limit 4 and the ellipsis on; insertWordBreaks:k (k 1..3) on <= 3 ASCII bytes; changeNewlineToBr on every string of <= 4 bytes other than NUL (the regexp replacement `\\r\\n|\\r|\\n` is summarised by a Go model validated natively against package regexp); 5 chains of two directives through parser and renderer; |json on strings of <= 2 bytes of valid UTF-8 (all byte values), alone and inside lists/maps with booleans, null, undefined and small ints, against a reference JSON parser (encoding/json's string encoding is a Go model validated natively against json.Marshal; structure and key order are produced as encoding/json documents them)",
+    "bounds_quick": "escapeUri: every string of <= 2 bytes (all 256 values); escapeJsString: <= 2 ASCII bytes (incl. controls) optionally with one of U+00E9/U+2028/U+2029/U+FEFF; truncate: valid UTF-8 strings of <= 3 bytes, limit 0..5, ellipsis default/true/false, and 5-byte strings with limit 4 and the ellipsis on; insertWordBreaks:k (k 1..3) on <= 3 ASCII bytes; changeNewlineToBr on every string of <= 4 bytes other than NUL (the regexp replacement `\\r\\n|\\r|\\n` is summarised by a Go model validated natively against package regexp); 5 chains of two directives through parser and renderer; every encoding directive through the print command on strings of 0..2 bytes (the print path adds or drops nothing); the JavaScript emitted for 8 directive chains applies the JavaScript counterparts left to right with their own arguments, autoescaping last; |json on strings of <= 2 bytes of valid UTF-8 (all byte values), alone and inside lists/maps with booleans, null, undefined and small ints, against a reference JSON parser (encoding/json's string encoding is a Go model validated natively against json.Marshal; structure and key order are produced as encoding/json documents them)",
     "bounds_thorough": "escapeUri 3 bytes; escapeJsString 3 bytes; truncate strings of <= 5 bytes with limits 0..8; changeNewlineToBr length 5",
     "outside": "|json of floats and of values outside the listed shapes (encoding/json itself works through reflection and is replaced by a model for strings plus the documented structure rules); the JavaScript counterparts in soyutils.js (no JavaScript semantics in the engine); bidi directives (unimplemented in soy); longer strings",
     "assumptions": ["refJSString (harness): reference decoder of ECMAScript string literal bodies, rejecting raw quotes, line terminators, control characters and < > &"],
@@ -323,11 +330,11 @@ PROPS["C14"] = {
         Job("soyjs", "H_jsLiteral", "0..5,0..1,1..5", workers=16),
         Job("soyjs", "H_jsLong", "0..5,0..4,0..5,0..3", workers=16, maxsteps=3000000, note="long text"),
         Job("soyjs", "H_jsLong", "0..5,5..6,0..5,0..3", tier="thorough", workers=16, maxsteps=3000000, note="longer text"),
-        Job("soyjs", "H_jsStruct", "0..2,false", workers=4),
-        Job("soyjs", "H_jsStruct", "0..2,true", workers=4),
+        Job("soyjs", "H_jsStruct", "0..3,false", workers=4),
+        Job("soyjs", "H_jsStruct", "0..3,true", workers=4),
         Job("soyjs", "H_jsLiteral", "0..5,3,0", tier="thorough", workers=16),
     ],
-    "bounds_quick": "string emission at 6 sites (raw text, string literal, map literal key, css suffix, global string value, message text) with <= 2 symbolic ASCII bytes (all 128 values incl. quotes, backslash, controls, line terminators), and <= 1 byte combined with U+00E9, U+2028, U+2029, U+1F600 or the text </script>: the emitted token is one well-formed, script-safe literal (for appended text: one or several append statements, each literal valid UTF-8) that decodes to the original characters; long text: a padding that places a 2-, 3- or 4-byte character (U+00E9, U+20AC, U+2028, U+1F600) across or next to every power-of-two offset 64..1024 (thorough: ..4096) followed by a symbolic byte, at each site; structure of the generated files for 3 bundles x 2 formatters (one function per template under its qualified/exported name, balanced brackets outside literals, identifier-shaped variable names)",
+    "bounds_quick": "string emission at 6 sites (raw text, string literal, map literal key, css suffix, global string value, message text) with <= 2 symbolic ASCII bytes (all 128 values incl. quotes, backslash, controls, line terminators), and <= 1 byte combined with U+00E9, U+2028, U+2029, U+1F600 or the text </script>: the emitted token is one well-formed, script-safe literal (for appended text: one or several append statements, each literal valid UTF-8) that decodes to the original characters; long text: a padding that places a 2-, 3- or 4-byte character (U+00E9, U+20AC, U+2028, U+1F600) across or next to every power-of-two offset 64..1024 (thorough: ..4096) followed by a symbolic byte, at each site; structure of the generated files for 4 bundles (incl. namespaces with repeated segments) x 2 formatters (every prefix of the namespace declared outermost first before the functions, one function per template under its qualified/exported name, balanced brackets outside literals, identifier-shaped variable names)",
     "bounds_thorough": "3 symbolic bytes per site",
     "outside": "full-script syntactic validity: needs a JavaScript parser inside the solver loop, which is not available; only literal tokens and the bracket/definition structure are decided. Whole-template generation with symbolic text through the parser.",
     "assumptions": ["refJSLiteral (harness): reference decoder of ECMAScript string literal bodies"],
@@ -340,6 +347,7 @@ PROPS["C02"] = {
     "jobs": [
         Job("soyhtml", "H_program", "2,2,0..2", workers=16, timeout=900),
         Job("soyhtml", "H_programBlocks", "2,3", workers=16, timeout=900),
+        Job("soyhtml", "H_forRange", "1..3", workers=16),
         Job("soyhtml", "H_programBlocks", "3,4", tier="thorough", workers=16, timeout=3000),
         Job("soyhtml", "H_program", "2,3,0..2", tier="thorough", workers=16, timeout=3000),
     ],
@@ -356,17 +364,18 @@ PROPS["C07"] = {
     "jobs": [
         Job("soyhtml", "H_datarefs", "2,2,true,true", workers=16, timeout=900),
         Job("soyhtml", "H_datarefsLate", "1,2,1", workers=16, timeout=900),
-        Job("soyhtml", "H_datarefsBind", "2,3,false", workers=16, timeout=900),
-        Job("soyhtml", "H_datarefsBind", "2,3,true", workers=16, timeout=900),
-        Job("soyhtml", "H_datarefsBind", "2,4,false", tier="thorough", workers=16, timeout=3000),
-        Job("soyhtml", "H_datarefsBind", "2,4,true", tier="thorough", workers=16, timeout=3000),
+        Job("soyhtml", "H_datarefsBind", "2,3,false,false", workers=16, timeout=900),
+        Job("soyhtml", "H_datarefsBind", "2,3,true,false", workers=16, timeout=900),
+        Job("soyhtml", "H_datarefsBind", "2,3,true,true", workers=16, timeout=900),
+        Job("soyhtml", "H_datarefsBind", "2,4,false,false", tier="thorough", workers=16, timeout=3000),
+        Job("soyhtml", "H_datarefsBind", "2,4,true,false", tier="thorough", workers=16, timeout=3000),
         Job("soyhtml", "H_bothParamStyles", "0..2", workers=2),
         Job("soyhtml", "H_datarefs", "1,2,false,true", tier="thorough", workers=16, timeout=3000),
         Job("soyhtml", "H_datarefsLate", "1,2,2", tier="thorough", workers=16, timeout=3000),
         Job("soyhtml", "H_datarefs", "2,2,true,false", tier="thorough", workers=16, timeout=3000),
         Job("soyhtml", "H_datarefs", "2,2,false,false", tier="thorough", workers=16, timeout=3000),
     ],
-    "bounds_quick": "bundles generated around binding structure: a template with params l, m and (by configuration) a / optional b, a body of at most 2 generated nodes up to nesting depth 2 among print ($a,$b,$c,$i,$ij.x), let value / let content (names a, c, ij), if, foreach, call (existing callee with optional params, callee with a required param, missing callee; data none/all/$m; param k, undeclared zz, required q; value or content param) plus a fixed trailer; the soydoc of the callee with a required param lists it before or after the optional one (a choice); a second generator profile restricted to binding structure (print, let value, let content, if) with 3 nodes; CheckDataRefs accepts exactly the bundles the declarative rule set accepts; for accepted bundles a render with every declared param supplied triggers the lookup observer (hook) only for optional params a callee was not passed; the same bundles followed or preceded by a template with an unused param (state carried from one template's check to the next); both-param-styles rule on 3 concrete templates",
+    "bounds_quick": "bundles generated around binding structure: a template with params l, m and (by configuration) a / optional b, a body of at most 2 generated nodes up to nesting depth 2 among print ($a,$b,$c,$i,$ij.x), let value / let content (names a, c, ij), if, foreach, call (existing callee with optional params, callee with a required param, missing callee; data none/all/$m; param k, undeclared zz, required q; value or content param) plus a fixed trailer; the soydoc of the callee with a required param lists it before or after the optional one (a choice); a second generator profile restricted to binding structure (print, let value, let content, if, foreach; lets may be named like the loop variable) with 3 nodes, with and without the params a and b declared (so that every declared name can be used within the budget); CheckDataRefs accepts exactly the bundles the declarative rule set accepts; for accepted bundles a render with every declared param supplied triggers the lookup observer (hook) only for optional params a callee was not passed; the same bundles followed or preceded by a template with an unused param (state carried from one template's check to the next); both-param-styles rule on 3 concrete templates",
     "bounds_thorough": "the other param-declaration configurations; binding-structure profile with 4 nodes. (3 nodes of the full grammar were tried: > 2.4 million paths, not finished in 50 min, not registered.)",
     "outside": "bundles beyond the size bound; {msg} bodies; several files/namespaces (the rules are per template and callee lookup is by qualified name)",
     "assumptions": ["c07Check (harness) is a declarative transcription of the rules in the property statement: references resolve to the innermost enclosing let defined earlier, a loop variable inside its loop, a declared param, or $ij; data=\"all\" forwards params (never lets) and counts as their use"],
@@ -377,12 +386,12 @@ PROPS["C07"] = {
 # ---------------------------------------------------------------- C11
 PROPS["C11"] = {
     "jobs": [
-        Job("soymsg/pomsg", "H_roundtrip", "0..7,0..3,0..2", workers=16, timeout=900),
+        Job("soymsg/pomsg", "H_roundtrip", "0..9,0..3,0..2", workers=16, timeout=900),
         Job("soymsg/pomsg", "H_plural", "1..3", workers=8, timeout=600),
         Job("soymsg/pomsg", "H_catalogue", "0..3", workers=8, timeout=600),
         Job("soymsg/pomsg", "H_sameID", "0..2", workers=8, timeout=600),
     ],
-    "bounds": "8 messages (text only; text + placeholders; repeated equal expressions; html tags; two expressions that differ only in parenthesisation; colliding placeholder base names; one expression printed with different directives; two link tags with different attributes) in 4 contexts (plain, inside a foreach, inside the content block of a call param, inside a called template) x 3 catalogues built with the real extraction functions (pomsg.Validate/Msgid/MsgidPlural -> newMessage -> soymsg.Parts): identity, parts reversed, message absent; data: symbolic int in [0,2] and a symbolic byte from {a,b,c,<}; pairs of messages that share an id (same text and placeholder names, different expressions) in one template; a three-message bundle (plural + two plain) loaded through the real newBundle from PO entries in 4 orders; plural message with {case 1}+{default} under catalogues with 1, 2 and 3 plural forms where the bundle's PluralCase returns an arbitrary index below the number of forms, or the English rule",
+    "bounds": "10 messages (one directive with different arguments; literal braces next to placeholders; text only; text + placeholders; repeated equal expressions; html tags; two expressions that differ only in parenthesisation; colliding placeholder base names; one expression printed with different directives; two link tags with different attributes) in 4 contexts (plain, inside a foreach, inside the content block of a call param, inside a called template) x 3 catalogues built with the real extraction functions (pomsg.Validate/Msgid/MsgidPlural -> newMessage -> soymsg.Parts): identity, parts reversed, message absent; data: symbolic int in [0,2] and a symbolic byte from {a,b,c,<}; pairs of messages that share an id (same text and placeholder names, different expressions) in one template; a three-message bundle (plural + two plain) loaded through the real newBundle from PO entries in 4 orders; plural message with {case 1}+{default} under catalogues with 1, 2 and 3 plural forms where the bundle's PluralCase returns an arbitrary index below the number of forms, or the English rule",
     "outside": "PO text syntax and file loading (robfig/gettext/po), locale fallback (x/text/language), the xgettext-soy main wrapper (its extract function is three calls which the harness mirrors), the JavaScript backend (no JS semantics in the engine); messages outside the dictionary; soymsg.Parts runs its regexp natively on concrete text",
     "assumptions": ["the expected value of a placeholder is what the real renderer prints for a template consisting of that expression alone (the evaluator itself is checked under C01)"],
     "level_text": "Bounded symbolic model checking of the extraction -> catalogue -> render pipeline for a message dictionary with symbolic data and a symbolic plural-form index: translated output is compared with the composition of the parts' own renderings.",
